@@ -3,6 +3,7 @@
    call records about its own input (bk_of) and how answers are formed from them. *)
 From Coq Require Import List Bool.
 From XV Require Import Model.History Gen.T7hist Proofs.C14_proofs Proofs.C14_tie.
+From XV Require Model.Mic Gen.T7mic Proofs.Mic_proofs Proofs.Mic_tie.
 Import ListNotations.
 
 (* after ANY history h, fitting on d and asking the queries q gives exactly the answers of a fresh
@@ -60,3 +61,22 @@ Print Assumptions C14_fitted_accessors_ignore_bookkeeping.
 Theorem C14_fit_rebuilds_transformers : list_fit_resets_transformers = true /\ list_fit_instantiates_fresh_transformers = true.
 Proof. exact list_fit_rebuilds. Qed.
 Print Assumptions C14_fit_rebuilds_transformers.
+
+(* MultiIndexConverter (parameters regenerated from the source, Gen/T7mic.v): after ANY history h, a fit on X0
+   and any further transform / inverse calls q, labels restored on the fit path (scores, components, data)
+   are those a fresh converter fitted on X0 restores - transforms of other data never leak into them *)
+Theorem C14_multiindex_fit_labels_depend_on_last_fit : forall (h q : list Mic.op) (X0 Y : Mic.data), NoDup (map fst X0) ->
+  forallb (fun o => negb (Mic_proofs.is_fit o)) q = true ->
+  Mic.inverse T7mic.src_params (fst (Mic.run T7mic.src_params (fst (Mic.run T7mic.src_params Mic.init (h ++ [Mic.OFit X0]))) q)) Mic.RefFit Y =
+  Mic.inverse T7mic.src_params (Mic.fit T7mic.src_params Mic.init X0) Mic.RefFit Y.
+Proof. exact Mic_proofs.fit_labels_depend_on_last_fit. Qed.
+Print Assumptions C14_multiindex_fit_labels_depend_on_last_fit.
+
+(* the two dictionaries are distinct objects: with one dict for both, a later transform overwrites the fit labels *)
+Theorem C14_multiindex_aliased_refuted :
+  let p := Mic.mkP true Mic.StoreAlways Mic.TakeWhenShorter in
+  snd (Mic.run p Mic.init [Mic.OFit Mic_proofs.X0; Mic.OTransform Mic_proofs.X1;
+                           Mic.OInverse Mic.RefFit [(0, Mic.Plain [0; 1; 2]); (1, Mic.Plain [0; 1])]]) =
+  [None; Some [(0, Mic.Plain [0; 1; 2]); (1, Mic.Plain [0; 1])]; Some Mic_proofs.X1].
+Proof. exact Mic_proofs.aliased_refuted. Qed.
+Print Assumptions C14_multiindex_aliased_refuted.
